@@ -34,7 +34,7 @@ std::string lines_diff(const std::vector<std::string> &x, const std::vector<std:
 }
 
 // a handle the application obtained earlier and kept: what it shows before the close is part of "what was observable before closing"
-struct Held { std::string kind; std::function<ONode(Observer &)> view; std::function<bool()> valid; };
+struct Held { std::string kind, id, block_id; std::function<ONode(Observer &)> view; std::function<bool()> valid; };
 
 void reopen_point(Ctx &c, Graph &g, const std::string &after, std::vector<Held> &held) {
     // unobserved: the writing session closes without having looked at its own content (the pre-close snapshot calls every getter, which would hide
@@ -94,10 +94,24 @@ void run_case(Ctx &c) {
             else if (k == 5) { DataFrame t; if (!g.anyFrame(b, t)) return; h.kind = "data_frame"; h.view = [t](Observer &o) { return o.frame(t); }; h.valid = [t] { return t.isValidEntity(); }; }
             else if (k == 6) { Section t; if (!g.anySection(t)) return; h.kind = "section"; h.view = [t](Observer &o) { return o.section(t); }; h.valid = [t] { return t.isValidEntity(); }; }
             else { h.kind = "block"; h.view = [b](Observer &o) { return o.block(b); }; h.valid = [b] { return b.isValidEntity(); }; }
-            Observer o; (void)h.view(o); if (held.size() < 12) held.push_back(h); c.count("kept_handles");
+            Observer o; ONode first = h.view(o); h.id = first.id; h.block_id = b.id(); if (held.size() < 12) held.push_back(h); c.count("kept_handles");
+        } catch (std::exception &) {} };
+    // ... and the entity behind a kept handle is changed through ANOTHER, freshly looked-up handle (links re-pointed, members added and removed)
+    auto poke = [&](const Held &h) {
+        try { Rng &r = c.rng; Block b = g.f.getBlock(h.block_id); if (!b || h.id.empty()) return; Section se; bool hs = g.anySection(se); Source so; bool hso = g.anySource(b, so); DataArray oa; bool hoa = g.anyArray(b, oa); int q = (int)r.u(4);
+            c.op("change behind a kept " + h.kind + " handle | " + str(q));
+            if (h.kind == "data_array") { DataArray a = b.getDataArray(h.id); if (!a) return; if (q == 0 && hs) a.metadata(se); else if (q == 1) a.metadata(nix::none); else if (q == 2 && hso) { if (a.hasSource(so)) a.removeSource(so); else a.addSource(so); } else { a.label("behind " + str(r.u(100))); if (a.dimensionCount() == 0) a.appendSetDimension({"x", "y"}); } }
+            else if (h.kind == "tag") { Tag t = b.getTag(h.id); if (!t) return; if (q == 0 && hs) t.metadata(se); else if (q == 1 && hoa) { if (t.hasReference(oa)) t.removeReference(oa); else t.addReference(oa); } else if (q == 2 && hso) { if (t.hasSource(so)) t.removeSource(so); else t.addSource(so); } else if (hoa) t.createFeature(oa, LinkType::Untagged); }
+            else if (h.kind == "multi_tag") { MultiTag t = b.getMultiTag(h.id); if (!t) return; if (q == 0 && hs) t.metadata(se); else if (q == 1 && hoa) { if (t.hasReference(oa)) t.removeReference(oa); else t.addReference(oa); } else if (q == 2 && hso) { if (t.hasSource(so)) t.removeSource(so); else t.addSource(so); } else t.definition("behind " + str(r.u(100))); }
+            else if (h.kind == "group") { Group gr = b.getGroup(h.id); if (!gr) return; if (q == 0 && hs) gr.metadata(se); else if (hoa) { if (gr.hasDataArray(oa)) gr.removeDataArray(oa); else gr.addDataArray(oa); } }
+            else if (h.kind == "block") { if (q == 0 && hs) b.metadata(se); else if (q == 1) b.metadata(nix::none); else b.createSource(g.name(), "t"); }
+            else if (h.kind == "section") { Section t; std::vector<Section> all = g.f.findSections(util::IdFilter<Section>(h.id)); if (all.empty()) return; t = all[0]; if (q == 0 && hs && se.id() != t.id()) t.link(se); else if (q == 1) t.link(nix::none); else if (q == 2) t.createProperty(g.name(), Variant(1.5)); else t.repository("behind " + str(r.u(100))); }
+            else if (h.kind == "source") { std::vector<Source> all = b.findSources(util::IdFilter<Source>(h.id)); if (all.empty()) return; Source t = all[0]; if (q == 0 && hs) t.metadata(se); else if (q == 1) t.createSource(g.name(), "t"); else t.definition("behind " + str(r.u(100))); }
+            c.count("changes_behind_kept_handles");
         } catch (std::exception &) {} };
     for (int i = 0; i < nops; i++) {
         if (c.rng.chance(0.25)) keep();
+        if (!held.empty() && c.rng.chance(0.3)) poke(held[c.rng.u(held.size())]);
         if (c.rng.chance(0.3)) { try { Section s; if (g.anySection(s) && s.propertyCount()) long_props.push_back(s.getProperty(c.rng.u(s.propertyCount()))); Block b; DataArray a; if (c.rng.chance(0.5) && g.anyBlock(b) && g.anyArray(b, a)) long_arrays.push_back(a); c.count("long_lived_handles");
             if (!long_props.empty() && c.rng.chance(0.6)) { Property lp = c.rng.pick(long_props); if (lp.isValidEntity()) { c.op("values through a long-lived property handle"); lp.values(g.gen_values(lp.dataType(), 2 + c.rng.u(4))); } } } catch (...) {} }
         g.step();
